@@ -952,6 +952,11 @@ func (s *Seq) OpSwap(ps []ReqProof, outs []ReqOut) cashu.BlindedSignatures {
 		fee, okFee := s.feeOf(ps)
 		if inOverflow || !okFee || out+fee > in || out+fee < out {
 			s.c.MonitorFail("C02", "C02/swap/outputs-exceed-inputs-minus-fee", fmt.Sprintf("swap issued %d for inputs %d with fee %d", out, in, fee), s.replay())
+			if okFee && fee > 0 && !inOverflow && out <= in {
+				// C09: every input is charged the fee its OWN keyset publishes (GET /v1/keysets), whichever keyset is active
+				// and however that keyset came to be (configured at start-up or created by a runtime rotation)
+				s.c.MonitorFail("C09", "C09/fee/published-keyset-fee-not-charged", fmt.Sprintf("swap issued %d for inputs %d although the published input fee of the inputs' keysets is %d", out, in, fee), s.replay())
+			}
 		}
 		s.consume(ps, fmt.Sprintf("swap #%d", s.opIndex), res)
 		s.recordSigs(outs, sigs, "swap")
